@@ -13,7 +13,13 @@
        PREPAREs among them, then their COMMITs among them" - no election trigger, no other input - is a run, and at its
        end every member of Q has committed, and has committed (v, h) unless it had committed before
        (C05_good_view_commits_partial; non-vacuity: C05_good_view_example).
-   Of half (a) only its arithmetic core is proved, in an abstract timed picture that is NOT connected to World.v (which
+     - a whole view change among them: correct members Q of quorum weight in one view u, the leader of u+1 among
+       them; their timers fire, their votes reach that leader until it is elected, its NEW_VIEW reaches the others, then
+       PREPAREs and COMMITs: a run at whose end all of Q have committed (C05_synchronised_view_change_commits_partial,
+       with one hypothesis about the model's authenticity bookkeeping for members that are prepared; without it when
+       nobody is prepared and the leader holds no early vote: C05_synchronised_view_change_commits_fresh; non-vacuity:
+       C05_fresh_view_change_example).
+   Of half (a) - that the timeouts bring them into one view TOGETHER - only the arithmetic core is proved, in an abstract timed picture that is NOT connected to World.v (which
    has no clock: election triggers are free events): with T = the CalcTimeout model, members that leave views by their
    own timeouts keep a constant distance between their entry times, so once T(v) covers that distance plus what a view
    needs, all of them are in v together for that long, in v and in every later view (theorems C05_sync_...).
@@ -22,7 +28,7 @@
    every fair order. The harness's liveness stream runs the real nodes from random adversarial prefixes through a timely
    schedule and searches for a stall. *)
 From Coq Require Import Lia.
-From LH Require Import Prims Quorum QuorumFacts Contexts Msg Term TermFacts AbsSafety Own Accept World Live LiveWorld LiveWorldEx WorldKF1 Timeout Sync.
+From LH Require Import Prims Quorum QuorumFacts Contexts Msg Term TermFacts AbsSafety Own Accept World Live LiveWorld LiveWorldEx WorldKF1 Timeout Sync Elect LiveElect LiveElectEx.
 Open Scope N_scope.
 
 Theorem C05_good_view_commits_partial :
@@ -177,3 +183,76 @@ Theorem C05_proposal_example :
     forall i, In i Q3 -> In (0, hA) (D (nstate 1 cm4 cfg4 nowm noshut fresh0 lead1 i ([] ++ deliveries_of_proposal cm4 0 Q3 ppA ++ ext))).
 Proof. exact proposal_example. Qed.
 Print Assumptions C05_proposal_example.
+
+(* ---- a whole view change among correct members (LiveElect.v) ----
+   what a timeout does at one member (Elect.v) *)
+Theorem C05_timeout_sends_the_vote :
+  forall c wm shut x, SInv c x -> TInv c x -> tc_v x + 1 < W64 -> leaderOf (t_cm (tc_t x)) (tc_v x + 1) <> c_me c ->
+  let x' := move_to_next_leader c wm shut x (t_h (tc_t x)) (tc_v x) in
+  tc_v x' = tc_v x + 1 /\ tc_t x' = tc_t x /\
+  tc_out x' = OSend [leaderOf (t_cm (tc_t x)) (tc_v x + 1)] (MVC (own_vote c x) (own_vote_block c x)) :: OArm (t_h (tc_t x)) (tc_v x + 1) :: tc_out x /\
+  ~ In (OSend [leaderOf (t_cm (tc_t x)) (tc_v x + 1)] (MVC (own_vote c x) (own_vote_block c x))) (tc_out x).
+Proof. exact timeout_follower. Qed.
+Print Assumptions C05_timeout_sends_the_vote.
+
+(* what the election does at the leader: it enters the view, stores its proposal and sends the NEW_VIEW *)
+Theorem C05_election_sends_the_new_view :
+  forall c wm shut x v vs, tc_v x <= v -> get_pp (tc_t x) v = None ->
+  (latest_block vs = None -> ctx_ok wm shut (t_h (tc_t x), v) = true) ->
+  let x' := on_elected c wm shut x v vs in
+  tc_v x' = v /\ t_latest (tc_t x') = v /\ t_h (tc_t x') = t_h (tc_t x) /\ t_cm (tc_t x') = t_cm (tc_t x) /\
+  exists h b,
+    is_preprepared (tc_t x') v h = Some {| pe_ref := mk_ref T_PREPREPARE c (t_h (tc_t x)) v h; pe_snd := my_sig c; pe_blk := Some b |} /\
+    In (OSend (others c (t_cm (tc_t x))) (nv_of c x v vs h b)) (tc_out x') /\
+    (latest_block vs = None -> b_bad b = [] /\ b_height b = t_h (tc_t x) /\ b_id b = h).
+Proof. exact on_elected_elects. Qed.
+Print Assumptions C05_election_sends_the_new_view.
+
+(* correct members Q of quorum weight in one view u - any reachable state - with the leader of u+1 among them: their
+   timeouts, their votes to that leader until it is elected, its NEW_VIEW, the PREPAREs, the COMMITs form a run at whose
+   end all of Q have committed. [votes_authentic]: the proofs inside the votes they send and the votes the leader
+   already holds are authentic in the sense of World.auth_msg (a fact about the model's bookkeeping, see LiveElect.v) *)
+Theorem C05_synchronised_view_change_commits_partial :
+  forall (H : N) (cm : committee), total cm < W64 ->
+  forall (honest : N -> bool) (cfg : N -> ncfg), (forall i, c_me (cfg i) = i) ->
+  forall st_wm st_shut st_fresh st_lead (Q : list N) (u : N), u + 1 < W64 ->
+  NoDup Q -> (forall i, In i Q -> good cm honest i) -> isQ_ids cm Q = true ->
+  In (leaderOf cm (u + 1)) Q ->
+  (forall i, In i Q -> c_inst (cfg i) = c_inst (cfg (leaderOf cm (u + 1)))) ->
+  (forall i, In i Q -> exists j, In j Q /\ j <> i /\ j <> leaderOf cm (u + 1)) ->
+  forall run, wrun H cm honest cfg st_wm st_shut st_fresh st_lead run ->
+  (forall i, In i Q -> tc_v (nstate H cm cfg st_wm st_shut st_fresh st_lead i run) = u) ->
+  votes_authentic H cm honest cfg st_wm st_shut st_fresh st_lead Q u run ->
+  exists ext, wrun H cm honest cfg st_wm st_shut st_fresh st_lead (run ++ ext) /\
+    (forall g, In g ext -> In (fst g) Q) /\
+    forall i, In i Q -> t_committed (tc_t (nstate H cm cfg st_wm st_shut st_fresh st_lead i (run ++ ext))) = true.
+Proof. exact synchronised_view_change_commits. Qed.
+Print Assumptions C05_synchronised_view_change_commits_partial.
+
+(* ... without that hypothesis when nobody in Q is prepared and the leader of u+1 holds no vote for it yet *)
+Theorem C05_synchronised_view_change_commits_fresh :
+  forall (H : N) (cm : committee), total cm < W64 ->
+  forall (honest : N -> bool) (cfg : N -> ncfg), (forall i, c_me (cfg i) = i) ->
+  forall st_wm st_shut st_fresh st_lead (Q : list N) (u : N), u + 1 < W64 ->
+  NoDup Q -> (forall i, In i Q -> good cm honest i) -> isQ_ids cm Q = true ->
+  In (leaderOf cm (u + 1)) Q ->
+  (forall i, In i Q -> c_inst (cfg i) = c_inst (cfg (leaderOf cm (u + 1)))) ->
+  (forall i, In i Q -> exists j, In j Q /\ j <> i /\ j <> leaderOf cm (u + 1)) ->
+  forall run, wrun H cm honest cfg st_wm st_shut st_fresh st_lead run ->
+  (forall i, In i Q -> tc_v (nstate H cm cfg st_wm st_shut st_fresh st_lead i run) = u /\
+                        t_prepared (tc_t (nstate H cm cfg st_wm st_shut st_fresh st_lead i run)) = None) ->
+  votes_of (tc_t (nstate H cm cfg st_wm st_shut st_fresh st_lead (leaderOf cm (u + 1)) run)) (u + 1) = [] ->
+  exists ext, wrun H cm honest cfg st_wm st_shut st_fresh st_lead (run ++ ext) /\
+    (forall g, In g ext -> In (fst g) Q) /\
+    forall i, In i Q -> t_committed (tc_t (nstate H cm cfg st_wm st_shut st_fresh st_lead i (run ++ ext))) = true.
+Proof. exact synchronised_view_change_commits_fresh. Qed.
+Print Assumptions C05_synchronised_view_change_commits_fresh.
+
+(* the hypotheses are satisfiable: the three correct members of the four-member world, timed out of view 0 towards a
+   Byzantine leader, are in view 1 unprepared; the theorem's continuation ends with all three committed *)
+Theorem C05_fresh_view_change_example :
+  exists ext, wrun 1 cm4 honest4 cfg4 nowm noshut fresh0 lead1 (stuck_run ++ ext) /\
+    forall i, In i Q3 -> t_committed (tc_t (nstate 1 cm4 cfg4 nowm noshut fresh0 lead1 i stuck_run)) = false /\
+                        t_committed (tc_t (nstate 1 cm4 cfg4 nowm noshut fresh0 lead1 i (stuck_run ++ ext))) = true.
+Proof. exact fresh_view_change_example. Qed.
+Print Assumptions C05_fresh_view_change_example.
